@@ -160,6 +160,13 @@ class _CacheServiceBase(Generic[CacheValueT]):
                 return obj
             except TypeError:
                 # Object is not hashable, convert it
+                if isinstance(obj, dict):
+                    # Iterating a dict yields only its keys: hash it by its sorted
+                    # (key, value) pairs so that option VALUES enter the cache key
+                    return tuple(sorted(
+                        ((_make_hashable(k), _make_hashable(v)) for k, v in obj.items()),
+                        key=lambda kv: repr(kv[0]),
+                    ))
                 if hasattr(obj, '__iter__') and not isinstance(obj, (str, bytes)):
                     # Convert iterables (like numpy arrays) to tuples
                     try:
